@@ -179,94 +179,8 @@ theorem C01_eval_request_no_internal_error_partial (cfg : Cfg) (fuel : Nat) (t :
   · exact good_not_scopePanic this.1 hm
   · exact good_not_objPanic this.1 hm
 
-/-- number of arguments of a builtin (`std.sort`, `std.set`: with `keyF`) -/
-def builtinArity : Builtin → Nat
-  | .length | .type_ | .all | .any | .toString => 1
-  | .trace | .objectFieldsEx | .map | .makeArray | .filter | .flatMap | .mapWithIndex | .mapWithKey | .join
-  | .range | .member | .count | .equals | .compare | .primitiveEquals | .assertEqual | .sort | .set => 2
-  | .objectHasEx | .foldl | .foldr | .filterMap => 3
-
-/-- `n` arguments are right for the builtin: `std.sort` and `std.set` also come without `keyF` -/
-def builtinArityOk (b : Builtin) (n : Nat) : Prop :=
-  n = builtinArity b ∨ ((b = .sort ∨ b = .set) ∧ n = 1)
-
-def exprsLength : Exprs → Nat
-  | .nil => 0
-  | .cons _ rest => exprsLength rest + 1
-
-def specsStartWithFor : Specs → Prop
-  | .for_ _ _ _ => True
-  | _ => False
-
-mutual
-  /-- what the parser and the desugaring guarantee and the analyzer does not check: builtins are
-      applied to the right number of arguments, comprehensions start with a `for` clause -/
-  def CoreShaped : Expr → Prop
-    | .null | .true_ | .false_ | .self_ | .dollar | .str _ | .num _ | .superField _ | .var _
-    | .importLit _ | .importTextBlock _ => True
-    | .paren e | .field e _ | .unary _ e | .error_ e | .inSuper e | .superIndex e | .importComputed _ e =>
-      CoreShaped e
-    | .object ms => CoreShapedMembers ms
-    | .objectComp locals name _ body spec =>
-      CoreShapedBinds locals ∧ CoreShaped name ∧ CoreShaped body ∧ specsStartWithFor spec ∧ CoreShapedSpecs spec
-    | .array items => CoreShapedExprs items
-    | .arrayComp body spec => CoreShaped body ∧ specsStartWithFor spec ∧ CoreShapedSpecs spec
-    | .index e i => CoreShaped e ∧ CoreShaped i
-    | .slice e a b c => CoreShaped e ∧ CoreShapedOpt a ∧ CoreShapedOpt b ∧ CoreShapedOpt c
-    | .call callee args _ => CoreShaped callee ∧ CoreShapedArgs args
-    | .local_ bs body => CoreShapedBinds bs ∧ CoreShaped body
-    | .if_ c t e => CoreShaped c ∧ CoreShaped t ∧ CoreShapedOpt e
-    | .binary _ a b => CoreShaped a ∧ CoreShaped b
-    | .objExt e ms => CoreShaped e ∧ CoreShapedMembers ms
-    | .func ps body => CoreShapedParams ps ∧ CoreShaped body
-    | .assert_ c m inner => CoreShaped c ∧ CoreShapedOpt m ∧ CoreShaped inner
-    | .builtin b args => builtinArityOk b (exprsLength args) ∧ CoreShapedExprs args
-  def CoreShapedOpt : OptExpr → Prop
-    | .none => True
-    | .some e => CoreShaped e
-  def CoreShapedExprs : Exprs → Prop
-    | .nil => True
-    | .cons e rest => CoreShaped e ∧ CoreShapedExprs rest
-  def CoreShapedArgs : Args → Prop
-    | .nil => True
-    | .pos e rest => CoreShaped e ∧ CoreShapedArgs rest
-    | .named _ e rest => CoreShaped e ∧ CoreShapedArgs rest
-  def CoreShapedBinds : Binds → Prop
-    | .nil => True
-    | .cons _ ps e rest => CoreShapedOptParams ps ∧ CoreShaped e ∧ CoreShapedBinds rest
-  def CoreShapedOptParams : OptParams → Prop
-    | .none => True
-    | .some ps => CoreShapedParams ps
-  def CoreShapedParams : Params → Prop
-    | .nil => True
-    | .cons _ d rest => CoreShapedOpt d ∧ CoreShapedParams rest
-  def CoreShapedMembers : Members → Prop
-    | .nil => True
-    | .local_ _ ps e rest => CoreShapedOptParams ps ∧ CoreShaped e ∧ CoreShapedMembers rest
-    | .assert_ c m rest => CoreShaped c ∧ CoreShapedOpt m ∧ CoreShapedMembers rest
-    | .fieldFix _ _ _ ps e rest => CoreShapedOptParams ps ∧ CoreShaped e ∧ CoreShapedMembers rest
-    | .fieldDyn n _ _ ps e rest => CoreShaped n ∧ CoreShapedOptParams ps ∧ CoreShaped e ∧ CoreShapedMembers rest
-  def CoreShapedSpecs : Specs → Prop
-    | .nil => True
-    | .for_ _ e rest => CoreShaped e ∧ CoreShapedSpecs rest
-    | .if_ c rest => CoreShaped c ∧ CoreShapedSpecs rest
-end
-
-/-- **C01 (evaluator model), full statement — NOT proved.**  No modelled Rust panic at all is
-    reachable for accepted programs of the shape the front end produces.  `_partial` above covers 8
-    of the model's panic messages; `C01_eval_set_done_assertion_never_fails` (RsjProps/C04Eval.lean)
-    covers `set_done`.  Missing: the identifiers stored in values, environments and fields are in
-    range ("bad thunk id", "bad function id", "attempted to access destroyed object" — needs a typing
-    of values through every postcondition); the binding plan is consistent with the argument lists
-    (three messages of the call code; RsjProofs/Bind.lean has the needed facts); the result kinds of
-    `manifest` / `equals` / `compare` tasks ("task did not return a string", …); the sorted indices
-    of `std.sort` are in range; and "partial_cmp of NaN", which needs facts about `Float` arithmetic that
-    Lean's opaque `Float` does not provide.  Without `CoreShaped` the statement is false:
-    `std.length()` with no argument is accepted by `analyze` and ends in "builtin arity". -/
-def C01_eval_no_internal_error_full : Prop :=
-  ∀ e : Expr, CoreShaped e → analyze e { isObj := false, vars := ["std"] } = .ok () →
-    ∀ (cfg : Cfg) (fuel : Nat) (m : String) (st' : St),
-      programProg cfg fuel e {} ≠ some (.error (.internal m), st')
+/-! The full statement — no modelled panic at all, for programs of the shape the front end produces —
+    and its proof for every message but one are in RsjProps/C01Eval.lean. -/
 
 /-- **C09 (run time), histories.** `runHistory` first builds a store — the root environment with
     `std` and one variable per library, a suspended thunk per library and per source (`historyInit`,
